@@ -80,6 +80,155 @@ func main() {
 		})
 	}
 
+	// ---- rendering HISTORY: ToSML / Encode are functions of the value, not of what was rendered
+	// before. Sub-items are reached through the public accessors (PRNG-chosen style) and rendered
+	// in a PRNG-chosen order and subset (children before parents, parents before children,
+	// shuffled, repeated); every rendering must equal the model (T line), the other renderer, and
+	// the first rendering of the same item.
+	kidsOf := func(it secs2.Item) []secs2.Item {
+		var out []secs2.Item
+		switch r.Intn(4) {
+		case 0:
+			for k := range it.Items() {
+				out = append(out, k)
+			}
+		case 1:
+			out, _ = it.ToList()
+		case 2:
+			for i := 0; i < it.Size(); i++ {
+				k, err := it.ItemAt(i)
+				if err == nil {
+					out = append(out, k)
+				}
+			}
+		default:
+			for i := 0; i < it.Size(); i++ {
+				k, err := it.Get(i)
+				if err == nil {
+					out = append(out, k)
+				}
+			}
+		}
+		return out
+	}
+	var collect func(it secs2.Item, pre, post *[]secs2.Item)
+	collect = func(it secs2.Item, pre, post *[]secs2.Item) {
+		*pre = append(*pre, it)
+		if it.IsList() {
+			for _, k := range kidsOf(it) {
+				collect(k, pre, post)
+			}
+		}
+		*post = append(*post, it)
+	}
+	history := func(root secs2.Item, origin string) {
+		if root.Error() != nil || !root.IsList() {
+			return
+		}
+		if _, ok := smlcase.Syntax(root); !ok {
+			return
+		}
+		var pre, post []secs2.Item
+		collect(root, &pre, &post)
+		firstSML := map[secs2.Item]string{}
+		firstEnc := map[secs2.Item]string{}
+		lines := 0
+		visit := func(x secs2.Item, when string) {
+			a := x.ToSML()
+			b := sml.Encode(x)
+			syn, _ := smlcase.Syntax(x)
+			line := "T " + syn + " | " + smlcase.Hex([]byte(a)) + " " + smlcase.Hex([]byte(b))
+			if x.IsList() && lines < 10 && len(line) < 20000 {
+				lines++
+				c.Case(line, "H"+line, true)
+			}
+			if a != b {
+				c.Fail("sml.Encode(item) differs from item.ToSML() after other items of the tree were rendered ("+when+")", line)
+			}
+			if p, ok := firstSML[x]; ok && p != a {
+				c.Fail("item.ToSML() of the same item changed with the rendering history ("+when+")", line)
+			}
+			if p, ok := firstEnc[x]; ok && p != b {
+				c.Fail("sml.Encode(item) of the same item changed with the rendering history ("+when+")", line)
+			}
+			if _, ok := firstSML[x]; !ok {
+				firstSML[x], firstEnc[x] = a, b
+			}
+		}
+		mode := r.Intn(6)
+		var order []secs2.Item
+		switch mode {
+		case 0: // children before parents, lists only
+			for _, x := range post {
+				if x.IsList() {
+					order = append(order, x)
+				}
+			}
+		case 1: // parents before children
+			order = pre
+		case 2: // a shuffled subset
+			for _, x := range pre {
+				if r.Intn(2) == 0 {
+					order = append(order, x)
+				}
+			}
+			r.Shuffle(len(order), func(i, j int) { order[i], order[j] = order[j], order[i] })
+		case 3: // one deepest list first, then upwards by the post-order
+			deepest := post[0]
+			for _, x := range post {
+				if x.IsList() {
+					deepest = x
+					break
+				}
+			}
+			order = append([]secs2.Item{deepest, deepest}, post...)
+		case 4: // everything, children first, then everything again parents first
+			order = append(append([]secs2.Item{}, post...), pre...)
+		default: // only one inner list, then the root
+			var inner []secs2.Item
+			for _, x := range pre[1:] {
+				if x.IsList() {
+					inner = append(inner, x)
+				}
+			}
+			if len(inner) > 0 {
+				order = append(order, inner[r.Intn(len(inner))])
+			}
+		}
+		if len(order) > 60 {
+			order = order[:60]
+		}
+		for _, x := range order {
+			visit(x, "history")
+		}
+		// now the root and every visited item again
+		visit(root, "root after history")
+		for _, x := range order {
+			visit(x, "again")
+		}
+		visit(root, "root again")
+		c.Count(fmt.Sprintf("history/%s/mode%d", origin, mode))
+	}
+	// one item value shared by two parents at different depths
+	shared := func() {
+		x := secs2.NewListItem(smlcase.Tree(r, cfg, 2, false), smlcase.Tree(r, cfg, 2, false))
+		if r.Intn(3) == 0 {
+			x = secs2.NewListItem()
+		}
+		p1 := secs2.NewListItem(x, smlcase.Leaf(r, cfg))
+		p2 := secs2.NewListItem(secs2.NewListItem(secs2.NewListItem(x), smlcase.Leaf(r, cfg)), x)
+		both := secs2.NewListItem(p1, p2)
+		if x.Error() != nil || both.Error() != nil {
+			return
+		}
+		if r.Intn(2) == 0 {
+			_ = x.ToSML() // the shared item rendered on its own before any parent
+		}
+		history(p1, "shared")
+		history(p2, "shared")
+		history(both, "shared")
+	}
+
 	// boundary corpus first
 	corpus := []secs2.Item{
 		secs2.NewEmptyItem(), secs2.NewListItem(), secs2.NewListItem(secs2.NewEmptyItem()),
@@ -131,14 +280,40 @@ func main() {
 		one(it, "deep")
 	}
 
+	// history on fresh fixed shapes: a chain, and a list of lists
+	for _, depth := range []int{2, 3, 5, 10} {
+		for rep := 0; rep < 6; rep++ {
+			var it secs2.Item = secs2.NewListItem(secs2.NewBooleanItem(true))
+			for i := 0; i < depth; i++ {
+				it = secs2.NewListItem(secs2.NewListItem(), it, secs2.NewASCIIItem("d"))
+			}
+			history(it, "chain")
+		}
+	}
+
 	for i := 0; i < c.N; i++ {
 		it := smlcase.Tree(r, cfg, 0, true)
+		// half of the trees get their history pass BEFORE the root is ever rendered, half after
+		hfirst := r.Intn(2) == 0
+		if hfirst {
+			history(it, "built-fresh")
+		}
 		one(it, "built")
+		if !hfirst {
+			history(it, "built")
+		}
+		if i%8 == 0 {
+			shared()
+		}
 		// the same tree as the decoder builds it (skipped where the wire form does not decode,
 		// e.g. an EmptyItem child)
 		if i%3 == 0 {
 			if dec, err := secs2.Decode(it.ToBytes()); err == nil {
+				if r.Intn(2) == 0 {
+					history(dec, "decoded-fresh")
+				}
 				one(dec, "decoded")
+				history(dec, "decoded")
 			} else {
 				c.Count("skipped/undecodable")
 			}
